@@ -29,7 +29,8 @@ pub fn canonical_items(tokens: &str) -> Vec<String> {
                 w.predicates = preds.into_iter().collect();
             }
         }
-        out.push(item.to_token_stream().to_string());
+        // (token trees, not text: user tokens are pasted with the `Spacing` they were written with, `x =* y` vs `x = * y`)
+        out.push(strip_spacing(&item.to_token_stream()));
     }
     out.sort();
     out
@@ -111,14 +112,14 @@ fn respace(ts: proc_macro2::TokenStream, tight: bool, out: &mut String) {
         if let Some(last) = out.chars().last() {
             let first = text.chars().next().unwrap_or(' ');
             let wordy = |c: char| c.is_alphanumeric() || c == '_' || c == '"' || c == '\'';
-            let need = if prev_joint {
+            let pair: String = [last, first].iter().collect();
+            let need = if prev_joint && (tight || GLUE.contains(&pair.as_str()) || last == '\'') {
                 false // the two puncts form one operator (or a lifetime): keep them together
             } else if wordy(last) && wordy(first) {
                 true
             } else if !tight {
                 true
             } else {
-                let pair: String = [last, first].iter().collect();
                 GLUE.contains(&pair.as_str()) || (last == '\'' ) || (last == '.' && first.is_ascii_digit()) || (last.is_ascii_digit() && first == '.')
             };
             if need {
@@ -257,6 +258,7 @@ pub fn main(args: &[String]) -> i32 {
                 let same_trees = text.parse::<proc_macro2::TokenStream>().map(|t2| strip_spacing(&t2) == strip_spacing(&ts)).unwrap_or(false);
                 if same_trees {
                     let o2 = expand_str(d, &text);
+                    // the user's own tokens are pasted into the output with their spacing: compare token trees, not text
                     let same = match (&o, &o2) {
                         (Outcome::Ok(a), Outcome::Ok(b)) => a == b || canonical_items(a) == canonical_items(b),
                         (Outcome::Err(a), Outcome::Err(b)) => a == b,
